@@ -392,7 +392,9 @@ def w_groups(ctx, rng, i):
         for op in ("with_labels", "without_labels"):
             if (op == "with_labels" and not sub) or (op == "without_labels" and len(sub) == k):
                 continue      # an empty selection cannot be a labelled group: outside the quantifier
-            r = getattr(g, op)(sub)
+            # (the labels in whatever sequence the caller has them: a list, a tuple from itertools, an array of names)
+            form = int(rng.integers(0, 4))
+            r = getattr(g, op)(sub if form < 2 else tuple(sub) if form == 2 else np.array(sub, dtype=object))
             dropped |= r.n_points < g.n_points or r.n_labels < k
     # requested out of original order, duplicates, single string, unknown label
     if k >= 2:
